@@ -355,19 +355,95 @@ impl Monitor for PaletteMonitor {
 
 pub struct CanvasMonitor {
     reach: Reach,
+    igs: bool,
+    fault_free: bool,
+    /// recent bytes, for recognising IGS loop headers "&from,to,step,delay,"
+    window: Vec<u8>,
+    max_loop_bound: i64,
+    somes_since_rx: i64,
 }
 
 impl CanvasMonitor {
     pub fn new(t: &Trace) -> Self {
-        CanvasMonitor { reach: Reach::new(t) }
+        CanvasMonitor {
+            reach: Reach::new(t),
+            igs: t.cfg.emu == "igs",
+            fault_free: t.faults.is_empty(),
+            window: Vec::new(),
+            max_loop_bound: 0,
+            somes_since_rx: 0,
+        }
+    }
+
+    /// Parses "&[>]from,to,step,delay," at the end of the window (ignoring the characters the engine ignores).
+    fn loop_header(&self) -> Option<(i64, i64, i64)> {
+        let w = &self.window;
+        let start = w.iter().rposition(|b| *b == b'&')?;
+        let mut nums: Vec<i64> = vec![0];
+        let mut digits = 0;
+        for b in &w[start + 1..] {
+            match *b {
+                b' ' | b'>' | b'\r' | b'_' | b'\n' => {}
+                b'0'..=b'9' => {
+                    digits += 1;
+                    let l = nums.last_mut()?;
+                    *l = (*l * 10 + i64::from(*b - b'0')).min(i64::from(i32::MAX));
+                }
+                b',' => nums.push(0),
+                _ => return None,
+            }
+        }
+        // complete once the fourth number is closed by a comma
+        if nums.len() == 5 && digits > 0 {
+            Some((nums[0], nums[1], nums[2]))
+        } else {
+            None
+        }
     }
 }
 
 impl Monitor for CanvasMonitor {
     fn after(&mut self, s: &Session, at: usize, r: &EvResult, stats: &mut RunStats) -> Option<Violation> {
         self.reach.observe(s, r, stats);
-        if let EvResult::Picture(p) = r {
-            match p {
+        match r {
+            EvResult::Byte(b, _) => {
+                self.somes_since_rx = 0;
+                if self.igs {
+                    self.window.push(*b);
+                    if self.window.len() > 96 {
+                        self.window.drain(..32);
+                    }
+                    if *b == b',' {
+                        if let Some((from, to, step)) = self.loop_header() {
+                            let bound = (to - from).abs() / step.max(1) + 2;
+                            self.max_loop_bound = self.max_loop_bound.max(bound);
+                            stats.count("probe_igs_loop_header_seen");
+                        }
+                    }
+                }
+            }
+            EvResult::NextAction(a) => {
+                if a.is_some() {
+                    self.somes_since_rx += 1;
+                    stats.count("probe_next_action_some");
+                    // a loop must end: its length may depend on its own from/to/step, on nothing else
+                    if self.fault_free && self.max_loop_bound > 0 && self.somes_since_rx > self.max_loop_bound {
+                        return Some(inv(
+                            "C20",
+                            "loop_does_not_end",
+                            format!(
+                                "get_next_action kept returning steps: {} since the last byte, but no loop in this stream needs more than {}",
+                                self.somes_since_rx, self.max_loop_bound
+                            ),
+                            at,
+                        ));
+                    }
+                } else if self.somes_since_rx > 0 {
+                    stats.count("probe_loop_ran_to_completion");
+                    self.somes_since_rx = 0;
+                }
+            }
+            EvResult::Picture(p) => match p {
                 Some((size, len)) => {
                     stats.count("probe_picture_some");
                     let want = i64::from(size.width) * i64::from(size.height) * 4;
@@ -381,7 +457,8 @@ impl Monitor for CanvasMonitor {
                     }
                 }
                 None => stats.count("probe_picture_none"),
-            }
+            },
+            _ => {}
         }
         None
     }
